@@ -8,7 +8,10 @@
 (* after 2 s.  Afterwards the SBI server runs with the resulting settings. *)
 (***************************************************************************)
 EXTENDS Integers, Sequences, FiniteSets, TLC, Json
-CONSTANTS Scripts,              \* set of sequences over {"neterr","500","200","201t","201f"} ending in a success
+CONSTANTS Scripts,              \* set of sequences over {"neterr","500","200","200t","200f","201t","201f"} ending in a success
+                                \* ("200t"/"200f": profile replaced -- the NRF already held one under this id, e.g. after a restart
+                                \* without deregistration -- and the returned profile declares OAuth2 mandatory / not)
+          DEV_Oauth200Ignored,  \* TRUE: the OAuth2 setting of the NRF is adopted from a 201 answer only
           DEV_RunOverwritesNfId,\* TRUE: Server.Run assigns the returned instance id even when it is empty (200 path)
           EmitOneIn
 VARIABLES script, i, nfId, oauth, pc
@@ -18,7 +21,9 @@ Attempt ==
   /\ pc = "register" /\ i <= Len(script)
   /\ LET a == script[i] IN
      CASE a \in {"neterr", "500"} -> /\ i' = i + 1 /\ UNCHANGED <<nfId, oauth, pc>>          \* sleep 2 s, retry
-       [] a = "200" -> /\ pc' = "serve" /\ i' = i + 1 /\ oauth' = oauth
+       [] a \in {"200", "200t", "200f"} ->
+                       /\ pc' = "serve" /\ i' = i + 1
+                       /\ oauth' = IF a = "200" \/ DEV_Oauth200Ignored THEN oauth ELSE (a = "200t")
                        /\ nfId' = IF DEV_RunOverwritesNfId THEN "" ELSE nfId
        [] a \in {"201t", "201f"} -> /\ pc' = "serve" /\ i' = i + 1 /\ oauth' = (a = "201t") /\ nfId' = "fromLocation"
   /\ UNCHANGED script
@@ -26,7 +31,7 @@ Next == Attempt
 Spec == Init /\ [][Next]_vars
 View == vars
 \* the SBI server requires a token exactly when the NRF said so at registration
-OAuthFollowsNrf == pc = "serve" => (oauth <=> script[i - 1] = "201t")
+OAuthFollowsNrf == pc = "serve" => (oauth <=> script[i - 1] \in {"201t", "200t"})
 NfIdKept == pc = "serve" => nfId # ""
 InvNrf == (OAuthFollowsNrf /\ NfIdKept) \/ (PrintT(<<"VF-CEX", ToJson(<<[script |-> script]>>)>>) /\ FALSE)
 EmitBehaviour == IF pc' = "serve" /\ RandomElement(1..EmitOneIn) = 1 THEN PrintT(<<"VF-BEH", ToJson(<<[script |-> script]>>)>>) ELSE TRUE
